@@ -18,13 +18,24 @@ void gstuff_autorecv_setbuf_v1(struct gstuff_autorecv_v1 *autom,
 int gstuff_autorecv_newchar_v1(struct gstuff_autorecv_v1 *autom, char c)
 {
     int sts;
+    // Set when the current byte is a marker that ends a frame: the same
+    // marker may open the next frame (start and stop markers coincide).
+    int by_marker = 0;
 
     switch (autom->state)
     {
     case 0:
+        // Idle: everything up to the next marker belongs to no frame.
+        if (c != GSTUFF_START_V1)
+            goto __continue__;
         gstuff_autorecv_reset_v1(autom);
+        autom->state = 1;
+        goto __continue__;
 
-        // goto state 1 imediatly;
+    case 3:
+        // The previous frame was closed by a marker. The line is kept until
+        // now so that the caller could read it; that marker opened this frame.
+        gstuff_autorecv_reset_v1(autom);
         autom->state = 1;
         IGRIS_FALLTHROUGH
 
@@ -37,6 +48,7 @@ int gstuff_autorecv_newchar_v1(struct gstuff_autorecv_v1 *autom, char c)
                     &autom->line)) //< Повторный стартовый. Ничего не делаем.
                 goto __continue__;
 
+            by_marker = 1;
             if (autom->crc != 0)
             {
                 //Принят символ окончания пакета, но crc не пройден.
@@ -75,6 +87,7 @@ int gstuff_autorecv_newchar_v1(struct gstuff_autorecv_v1 *autom, char c)
             break;
         default:
             // Невалидный пакет.
+            by_marker = (c == GSTUFF_START_V1);
             sts = GSTUFF_DATA_ERROR_V1;
             goto __finish__;
         }
@@ -96,6 +109,8 @@ __continue__:
     return GSTUFF_CONTINUE_V1;
 
 __finish__:
-    autom->state = 0;
+    // After an error inside a frame the rest of that frame is skipped (idle
+    // until the next marker) instead of being parsed as a new frame.
+    autom->state = by_marker ? 3 : 0;
     return sts;
 }
